@@ -409,7 +409,7 @@ def run(tier, only=None):
             continue
         t0 = time.time()
         m = Lattice(core.seed(), with_clim)
-        res = bfs.bfs(m, max_depth=depth, repo_root=core.REPO, validate_merges=(100 if tier == "quick" else 2000))
+        res = bfs.bfs(m, max_depth=depth, repo_root=core.REPO, time_cap=(600 if tier == "quick" else 1800), validate_merges=(100 if tier == "quick" else 2000))
         subs.append(core.Sub.from_e2(name, res, bound="option sets of size <= %d over 9 options x 3 values, climatology=%s" % (depth, with_clim),
                                      rule="state = set of (option, value) on the command line, transition = add one option (executed in path order "
                                           "through the driver: --list-times/--list-locations, mae csv, fcst csv); merged orders validated by bisimulation",
